@@ -121,7 +121,7 @@ def invoke_events(rng, sc, lha, hdr, tier, ev, prefixers=()):
         if src == "path" and there and archive and os.path.exists(archive):
             mt = int(os.stat(archive).st_mtime)
         try:
-            pr = subprocess.run([lha.encode()] + args, capture_output=True, env=V.run_env(TEST_NOW_TIME=str(NOW)), stdin=stdin, timeout=300, cwd=cwd)
+            pr = V.run_bounded([lha.encode()] + args, capture_output=True, env=V.run_env(TEST_NOW_TIME=str(NOW)), stdin=stdin, timeout=300, cwd=cwd)
         finally:
             if hasattr(stdin, "close"):
                 stdin.close()
@@ -239,7 +239,7 @@ def glob_list_events(rng, sc, lha, hdr, tier, ev):
     mt = int(os.stat(a).st_mtime)
     for k, pats in enumerate(lists):
         word = [b"lq2", b"lq2", b"l", b"vq2"][k % 4]
-        pr = subprocess.run([lha.encode(), word, a.encode()] + pats, capture_output=True, env=V.run_env(TEST_NOW_TIME=str(NOW)), stdin=subprocess.DEVNULL, timeout=120, cwd=sc)
+        pr = V.run_bounded([lha.encode(), word, a.encode()] + pats, capture_output=True, env=V.run_env(TEST_NOW_TIME=str(NOW)), stdin=subprocess.DEVNULL, timeout=120, cwd=sc)
         if pr.returncode < 0 or pr.returncode == 99:
             raise V.HarnessError("lha %s with patterns %r died: %s" % (word, pats, pr.stderr.decode(errors="replace")[-300:]))
         events.append({"e": "Invoke", "args": [list(word), list(a.encode())] + [list(x) for x in pats], "prog": list(lha.encode()), "src": "path", "there": True, "why": [],
